@@ -33,6 +33,88 @@ class BaseBoom(BaseException):
     pass
 
 
+class StrBoom(Exception):
+    """an application exception with its own __str__ (its args are not its message)"""
+
+    def __str__(self):
+        return "StrBoom<%d>" % len(self.args)
+
+
+def _r(exc):
+    raise exc
+
+
+def _assert(*msg):
+    if msg:
+        assert False, msg[0]
+    assert False
+
+
+# `!x:<kind>`: exceptions of MANY classes and argument shapes, raised explicitly or by an ordinary failing Python operation of the body
+# (a table lookup on a dummy value, a parse, a file operation): no arguments, int / tuple / None / bytes / float / exception first
+# argument, several arguments, BaseException subclasses that are no Exception, classes with their own __str__
+RAISERS = {
+    "no-args": lambda: _r(ValueError()),
+    "class-only": lambda: _r(ValueError),
+    "str": lambda: _r(RuntimeError("boom")),
+    "int": lambda: _r(KeyError(7)),
+    "none": lambda: _r(Exception(None)),
+    "tuple-arg": lambda: _r(ValueError((1, 2))),
+    "two-args": lambda: _r(RuntimeError("msg", 5)),
+    "int-str": lambda: _r(OSError(2, "No such file or directory")),
+    "bytes": lambda: _r(Exception(b"raw")),
+    "float": lambda: _r(ArithmeticError(0.5)),
+    "exc-arg": lambda: _r(RuntimeError(ValueError("inner"))),
+    "custom-str": lambda: _r(StrBoom(4, "x")),
+    "custom-str-noargs": lambda: _r(StrBoom()),
+    "stop-iteration": lambda: _r(StopIteration(4)),
+    "sysexit-int": lambda: sys.exit(3),
+    "sysexit-none": lambda: sys.exit(),
+    "sysexit-str": lambda: sys.exit("bye"),
+    "keyboard-interrupt": lambda: _r(KeyboardInterrupt()),
+    "generator-exit": lambda: _r(GeneratorExit()),
+    "base-int": lambda: _r(BaseBoom(9)),
+    "dict-lookup": lambda: {1: 2}[7],
+    "dict-lookup-tuple": lambda: {}[(1, 2)],
+    "list-index": lambda: [10, 20][3],
+    "int-parse": lambda: int("x"),
+    "zero-div": lambda: 1 // 0,
+    "os-error": lambda: os.stat("/nonexistent/verif-no-such-file"),
+    "assert": lambda: _assert(),
+    "assert-int": lambda: _assert(5),
+    "decode": lambda: b"\xff".decode("utf-8"),
+    "attribute": lambda: None.nothing,
+}
+
+LAST = [None]       # the exception object an event has just raised: (object, class, repr(args), state of the region it was raised in)
+
+
+def throwing(fn):
+    """run an event that may raise; remember WHAT it raised (object, class, arguments) so that the caller that catches it can be
+    compared with it: the exception that reaches the caller is the one that was raised"""
+    try:
+        return fn()
+    except BaseException as x:
+        where = "top" if R.guard is None else ("live" if R.guard.value != 0 else "dead")
+        LAST[0] = (x, type(x), repr(x.args), where)
+        raise
+
+
+def delivered(x, bad, catcher):
+    """called by whoever catches: x must be the remembered exception, class and arguments unchanged"""
+    rec, LAST[0] = LAST[0], None
+    if rec is None:
+        return
+    obj, cls, args, where = rec
+    if x is obj and type(x) is cls and repr(x.args) == args:
+        return
+    first = "no-args" if args == "()" else ("str-first-arg" if args[1] in "'\"" else "non-str-first-arg")
+    base = "exception" if issubclass(cls, Exception) else "base-exception"
+    how = "another exception" if x is not obj else "changed arguments"
+    bad.append(f"exception:{where}:{base}:{first}:{'replaced' if x is not obj else 'args-changed'}: {cls.__name__}{args} was raised in a {where} region; "
+               f"the caller ({catcher}) received {how}: {type(x).__name__}{x.args!r}")
+
+
 def triple(p):
     g = "N" if R.guard is None else f"{R.guard.value}:{canon.canon_lc(R.guard.lc, p)}"
     return f"G={g}|IGN={1 if R._ignore_errors else 0}|ONE={LinComb.ONE.value}:{canon.canon_lc(LinComb.ONE.lc, p)}"
@@ -54,6 +136,8 @@ def parse(toks, pos=0):
             out.append(("raise",)); pos += 1
         elif t == "!b":
             out.append(("raiseb",)); pos += 1
+        elif t.startswith("!x:"):
+            out.append(("raisex", t[3:])); pos += 1
         elif t == "T(":
             body, pos, _ = parse(toks, pos + 1); out.append(("try", body))
         elif t in ("R(", "RS("):
@@ -113,14 +197,16 @@ def probed(call, what, region, p, bad):
 def run(evs, p, bad, stk=()):
     for e in evs:
         if e[0] == "raise":
-            raise Boom()
+            throwing(lambda: _r(Boom()))
         elif e[0] == "raiseb":
-            raise BaseBoom()
+            throwing(lambda: _r(BaseBoom()))
+        elif e[0] == "raisex":
+            throwing(RAISERS[e[1]])
         elif e[0] == "try":
             try:
                 run(e[1], p, bad, stk)
             except BaseException as x:
-                if isinstance(x, (SystemExit,)): raise
+                delivered(x, bad, "try/except around the region")
         elif e[0] == "guarded":
             cv = cond(e[1], e[2])           # may raise (non-boolean for B): before the region
             r = Region(f"G:{e[1]}:{e[2]}", cv, p, bad)
@@ -159,9 +245,9 @@ def run(evs, p, bad, stk=()):
             run(e[3], p, bad, stk)          # not a decorator: the innermost decorator stays the same
             restore_guard(bak)
         elif e[0] == "lt":
-            PrivVal(e[1]) < PrivVal(e[2])
+            throwing(lambda: PrivVal(e[1]) < PrivVal(e[2]))
         elif e[0] == "az":
-            PrivVal(e[1]).assert_zero()
+            throwing(lambda: PrivVal(e[1]).assert_zero())
 
 
 def main():
@@ -175,10 +261,11 @@ def main():
             evs, _, _ = parse(f[3].split())
             bad = []
             status = "ok"
+            LAST[0] = None
             try:
                 run(evs, cfg["p"], bad)
             except BaseException as x:
-                if isinstance(x, SystemExit): raise
+                delivered(x, bad, "top level")
                 status = "raised"
             out = f"{f[1]}|{status}|{triple(cfg['p'])}|NPRIV={len(B.privvals)}|NCONS={len(B.constraints)}|BAD={' ;; '.join(bad)}"
         except BaseException as e:
